@@ -270,7 +270,7 @@ pub fn meta(prop: &str) -> PropMeta {
         },
         "C03" => PropMeta {
             level: "exploration",
-            rule: "c03-sweep: 14 type codes x every combination of present/absent optional M over 3 records x {normal, zero parts, one-vertex parts, zero-vertex parts} x {with, without trailing bytes}, enumerated; foreign-large: 5000 records incl. null records, 1025..2049 parts incl. empty and one-vertex parts, 1024..3000 points per part; foreign-seeded: one seeded file per run from the reference encoder (any of the 14 codes, 0..6 records, null records interleaved, 0..4 parts of 0..7 vertices, any float bit pattern incl. NaN in X/Y, arbitrary stored boxes and record numbers, optional M per record, bytes after the declared length, short-read/EINTR schedules, BufReader capacities). non-trivial = at least one record; distinct = distinct (type, per-record (type, M present, part lengths), order, filler lengths, trailing length) tuples. Files with contiguous records are also read with their index by two successive iterators of one reader (half of the records, then the rest), whatever record numbers they store. With the index: all but two records through next(), the next one asked for as another type, the remaining one through Iterator::last(). With the index on a source whose seek moves and then reports an error once: seek(k) fails, the iteration that follows yields the records from the first or from k. Polygon ring roles are compared with the sign of the exact area wherever the plain double-precision sum has that sign too; the sweep holds rings with a side of 2^-30 and slivers whose x coordinates are 0, 1, 2 units of the smallest subnormal, in both orientations. The same streams decoded record by record through their index (physically permuted ones included) are judged under C03 too.",
+            rule: "c03-sweep: 14 type codes x every combination of present/absent optional M over 3 records x {normal, zero parts, one-vertex parts, zero-vertex parts} x {with, without trailing bytes}, enumerated; foreign-large: 5000 records incl. null records, 1025..2049 parts incl. empty and one-vertex parts, 1024..3000 points per part; foreign-seeded: one seeded file per run from the reference encoder (any of the 14 codes, 0..6 records, null records interleaved, 0..4 parts of 0..7 vertices, any float bit pattern incl. NaN in X/Y, arbitrary stored boxes and record numbers, optional M per record, bytes after the declared length, short-read/EINTR schedules, BufReader capacities). non-trivial = at least one record; distinct = distinct (type, per-record (type, M present, part lengths), order, filler lengths, trailing length) tuples. Files with contiguous records are also read with their index by two successive iterators of one reader (half of the records, then the rest), whatever record numbers they store. With the index: all but two records through next(), the next one asked for as another type, the remaining one through Iterator::last(). With the index on a source whose seek moves and then reports an error once: seek(k) fails, the iteration that follows yields the records from the first or from k. Polygon ring roles are compared with the sign of the exact area wherever the plain double-precision sum has that sign too; the sweep holds rings with a side of 2^-30 and slivers whose x coordinates are 0, 1, 2 units of the smallest subnormal, in both orientations. The same streams decoded record by record through their index (physically permuted ones included) are judged under C03 too. Ring roles of decoded polygons follow the orientation wherever the exact signed area is not zero; rings whose double-precision area (the sum, then its half) rounds to zero or to the other sign are the open known finding C03/ring-role-rounding (the C01 finding seen from a foreign file).",
             explanation: "Stub producer, real consumer: the file comes from the independent reference encoder, the real reader decodes it from a simulated source. Oracle: same record count and order, parts, patch kinds, coordinates bit-identical with absent M reported as NO_DATA and present M normalised, stored box returned as stored, no read beyond the declared length (Direct stack, from the device event log).",
             exhaustive: false,
         },
